@@ -101,12 +101,47 @@ def run(ctx):
                 ctx.count('probe_cells', 1)
                 if len(ctx.findings) - n0 > 40:
                     break
+            # fused rounding matrix: kept bits from the addend, round bit and a deep sticky bit from the exact product, with / without carry
+            from props.common import run_points
+            pts = probes.fma_probes(pty, 2 if ctx.tier == 'thorough' else 1)
+            sp = probes.fma_sparse_probes(pty, per_m=6 if ctx.tier == 'quick' else 24)
+            pts = pts + sp + [((-a) & mask(pty.bits), b, (-c) & mask(pty.bits)) for a, b, c in sp]
+            if name == 'mul_sub':
+                pts = [(a, b, (-c) & mask(pty.bits)) for a, b, c in pts[::2]]
+            elif name == 'sub_product':
+                pts = [(c, (-a) & mask(pty.bits), b) for a, b, c in pts[1::2]]
+            run_points(ctx, prog, 'GCR', '%s::%s' % (pty.name, name), path, pty, pts, tspec(pty, f))
             k = find_kernel(prog, path)
             if k is None:
                 ctx.notes.append('%s::%s: no callee with an operation-selector parameter (the three operations do not share a kernel): R5 has no instance there' % (pty.name, name))
             elif k not in kernels:
                 kernels.add(k)
                 ksites += selector_rule(ctx, prog, k, pty.name + '::mul_add-kernel')
+    # R10 with one symbolic operand: one factor the constant 2^t, the other *every* posit of a regime cell, the addend a constant placed so that the
+    # exact result is a routing of the symbolic operand's bits; then the rounding cases.  Proves alignment of product and addend, sticky collection
+    # (incl. product bits deeper than the target precision when t != 0), rounding, carry-out and the borrow correction on those families.
+    import rules_rounding
+    ctx.trusted += [t_ for t_ in rules_rounding.TRUSTED if t_ not in ctx.trusted]
+    ctx.rules.append('R10 (one symbolic operand): x*y+z family with one factor 2^t and a constant addend; result vector == correctly rounded value')
+    tasks = []
+    for pty in PTYS:
+        maxs = (pty.bits - 2) << pty.es
+        allsc = list(range(-maxs, maxs))
+        if pty.bits == 32:
+            allsc = [s_ for s_ in allsc if s_ % 4 in (0, 3) and (ctx.tier == 'thorough' or (s_ >> 2) % 3 == 0)]
+        ts = (0, -3) if ctx.tier == 'quick' else (0, -3, 5)
+        for fname in FUNCS:
+            path = prog.inherent(pty.tykey, fname)
+            if not path:
+                continue
+            chunk = 8 if pty.bits > 8 else len(allsc)
+            for v in range(len(rules_rounding.FMA_VARIANTS[fname])):
+                for t_ in ts:
+                    for i in range(0, len(allsc), chunk):
+                        tasks.append((rules_rounding.check_fma, ('R10', '%s::%s' % (pty.name, fname), path, pty, fname, v, False), dict(scales=allsc[i:i + chunk], t=t_)))
+    st = rules_rounding.run_parallel(ctx, prog, tasks)
+    ctx.count('one_symbolic_operand_cells', st['cells'])
+    ctx.count('one_symbolic_operand_cells_proved', st['proved'])
     ctx.require('C05 decided cells', tot, 1000)
     if kernels:
         ctx.require('C05 selector rule sites', ksites, len(kernels))
